@@ -473,6 +473,38 @@ pub fn corpus(tier: Tier) -> Vec<Project> {
         p.set_file(None, "en", e);
         out.push(p);
     }
+    // several distinct components and variables nested inside one component - directly, in a range branch, in a plural
+    // form: whatever collection the generator keeps them in, two processes must emit them in the same order
+    {
+        let many = |tag: &str| {
+            comp(
+                "p",
+                vec![
+                    text(&format!("[{tag}]")),
+                    comp("b", vec![var("v1")]),
+                    comp("i", vec![var("v2")]),
+                    comp("u", vec![text("u")]),
+                    comp("em", vec![var("v3")]),
+                    comp("s", vec![text("s")]),
+                    comp("q", vec![comp("kbd", vec![text("k")]), comp("mark", vec![var("v4")])]),
+                ],
+            )
+        };
+        let mut p = Project::new(Config::simple("en", &["en", "fr"]));
+        for l in ["en", "fr"] {
+            p.set_file(
+                None,
+                l,
+                vec![
+                    ("nest".to_string(), s(vec![many(&format!("{l}.nest"))])),
+                    ("nest_r".to_string(), Val::Range(RangeDecl { ty: Some("u8".into()), branches: vec![rb(s(vec![many(&format!("{l}.r0"))]), vec![CountSpec::UInt(0)], false), rb(s(vec![many(&format!("{l}.rfb")), var("count")]), vec![], false)] })),
+                    ("nest_p_one".to_string(), s(vec![many(&format!("{l}.one"))])),
+                    ("nest_p_other".to_string(), s(vec![many(&format!("{l}.other")), var("count")])),
+                ],
+            );
+        }
+        out.push(p);
+    }
     // plural forms, surplus / missing keys (diagnostics must not depend on order)
     let mut p = Project::new(Config::simple("en", &["en", "fr"]));
     p.set_file(None, "en", vec![("a".into(), st("A")), ("b".into(), st("B")), ("p_one".into(), st("1")), ("p_other".into(), st("n")), ("p_few".into(), st("few"))]);
